@@ -389,3 +389,11 @@ def c16_mg_sizes(ctx, depth, small):
     x0, rhs = rng.random(big), rng.random(big)
     a, b = used(x0.copy(), rhs.copy()), fresh(x0.copy(), rhs.copy())
     ctx.ensure("result on the large array: object that saw a small array before == fresh object", bool(np.array_equal(a, b)))
+
+
+@ob("C16.dep_numeric", kind="B", samples=(2, 6), funcs=[], tol=1e-11, cite="(validation of assumed dependency contracts)",
+    note="the relational proofs assume splu / lstsq are FUNCTIONS of their arguments: checked on the installed scipy (identical results for equal arguments)")
+def c16_dep_numeric(ctx):
+    from contracts import deps_validation as dv
+    dv.dep_lstsq(ctx)
+    dv.dep_splu(ctx)
